@@ -102,17 +102,22 @@ _TWO_ARGS = {"power", "atan2", "atan_2", "min_value", "max_value"}
 _BESSEL = {"bessel_j", "bessel_y", "bessel_i", "bessel_k"}
 
 
-def _emitted(name, scalar_type, dt0):
-    """Function name the REAL C formatter emits for MathFunction(name, args) with args[0] of dtype dt0."""
+def _arg_combos(name):
+    """dtype tuples of the arguments to scan: every combination for binary functions (the table must depend on
+    args[0] only — a formatter that looks at another argument is caught by the mixed rows)."""
+    if name in _BESSEL:
+        return [("int", d) for d in ("real", "scalar")]
+    if name in _TWO_ARGS:
+        return [(a, b) for a in ("real", "scalar") for b in ("real", "scalar", "int")]
+    return [("real",), ("scalar",)]
+
+
+def _emitted(name, scalar_type, dts):
+    """Function name the REAL C formatter emits for MathFunction(name, args) with args of dtypes `dts`."""
     import ffcx.codegeneration.lnodes as L
     from ffcx.codegeneration.C.formatter import Formatter
     D = {"real": L.DataType.REAL, "scalar": L.DataType.SCALAR, "int": L.DataType.INT}
-    if name in _BESSEL:
-        args = [L.LiteralInt(1), L.Symbol("a", D[dt0])]
-    elif name in _TWO_ARGS:
-        args = [L.Symbol("a", D[dt0]), L.Symbol("b", D[dt0])]
-    else:
-        args = [L.Symbol("a", D[dt0])]
+    args = [L.LiteralInt(1) if (d == "int") else L.Symbol("ab"[i], D[d]) for i, d in enumerate(dts)]
     node = L.MathFunction(name, args)
     txt = Formatter(np.dtype(scalar_type))(node)
     return txt.split("(", 1)[0], node
@@ -154,20 +159,22 @@ def check_math_table(chk, d):
     for name in _handler_names():
         for st in _SCALAR_TYPES:
             cplx = st.startswith("complex")
-            for dt0 in ("real", "scalar"):
+            for dts in _arg_combos(name):
+                dt0 = dts[-1] if name in _BESSEL else dts[0]     # dtype of the (first) scalar operand
                 if name in ("conj", "real", "imag"):
                     if not cplx:
                         continue      # cannot occur: stripped by UFL in real mode (checked above)
                     if _folds(name, dt0):
                         folded.append(f"{name}({dt0})")
                         continue      # lnodes._math_function returns the operand / 0.0: no call is emitted
-                fn, node = _emitted(name, st, dt0)
-                # Bessel: args[0] is the order (LiteralInt, dtype INT), so the table of the scalar type is used
-                node_dt = "int" if name in _BESSEL else dt0
+                fn, node = _emitted(name, st, dts)
+                # node dtype = dtype of args[0] (Bessel: the order, a LiteralInt, so the table of the scalar type is used)
+                node_dt = dts[0]
+                any_scalar = "scalar" in dts
                 sig = C99.get(fn)
-                row = {"name": name, "scalar_type": st, "arg0": node_dt, "arg": dt0, "emitted": fn, "sig": sig}
+                row = {"name": name, "scalar_type": st, "args": list(dts), "emitted": fn, "sig": sig}
                 rows.append(row)
-                chk.case("math_table_sig", f"{name}:{st}:{dt0}")
+                chk.case("math_table_sig", f"{name}:{st}:{'/'.join(dts)}")
                 key = f"c09:mathtable:{name}:{st}"
                 if sig is None:
                     chk.violation(key, f"math function `{name}` is emitted as `{fn}` for {st}: not a C99/POSIX function",
@@ -186,7 +193,7 @@ def check_math_table(chk, d):
                     if (model_ty == "real") != (res == "real"):
                         chk.disagree("math table: model `callTy` disagrees with the C result type of the emitted function",
                                      {"name": name, "scalar_type": st, "arg0_dtype": node_dt, "emitted": fn, "c99": sig, "model": r})
-                    if par == "real" and not real_table and dt0 == "scalar":
+                    if par == "real" and any_scalar:
                         # a function with double parameters listed in / falling through the complex table: harmless iff the
                         # generator never hands it a SCALAR argument — decided per kernel by the certificate
                         latent.append(f"{name}->{fn} ({st})")
